@@ -1,5 +1,4 @@
-import StorageModel.C06.Model
-import StorageModel.C03.Refine
+import StorageModel.C06.Links
 /-
   C06: invariants of the universe model and their preservation by every operation.
 -/
@@ -7,180 +6,6 @@ namespace StorageModel.C06
 open StorageModel
 open StorageModel.C03 (Map Id Err setInsert setErase setOf uniqueAfter uniqueBeforeDelete setAfter setBeforeDelete
   UI SI NEK mem_setInsert mem_setErase)
-
-/-- the link buckets are symmetric and live only inside existing entities -/
-structure LinkInv (s : State) : Prop where
-  sym : ∀ j b, b ∈ (s.grp.lookup j).getD [] ↔ j ∈ (s.mem.lookup b).getD []
-  memDom : ∀ b l, s.mem.lookup b = some l → (s.b.lookup b).isSome = true
-  grpDom : ∀ j l, s.grp.lookup j = some l → (s.a.lookup j).isSome = true
-
-/-- everything but the two link maps is unchanged -/
-def LinkFrame (s s' : State) : Prop :=
-  s' = { s with grp := s'.grp, mem := s'.mem }
-
-theorem LinkFrame.refl (s : State) : LinkFrame s s := rfl
-theorem LinkFrame.trans {s t u : State} (h1 : LinkFrame s t) (h2 : LinkFrame t u) : LinkFrame s u := by
-  unfold LinkFrame at *
-  rw [h2, h1]
-
-theorem unlinkAB_pres {s : State} {a b : Id} (hi : LinkInv s) (ha : (s.a.lookup a).isSome = true) :
-    LinkInv (unlinkAB s a b) ∧ LinkFrame s (unlinkAB s a b) ∧
-    (∀ j, (s.grp.lookup j).isSome = true → ((unlinkAB s a b).grp.lookup j).isSome = true) ∧
-    ((unlinkAB s a b).grp.lookup a).isSome = true := by
-  unfold unlinkAB
-  simp only
-  cases hb : s.b.lookup b with
-  | none =>
-    simp only
-    refine ⟨⟨?_, hi.memDom, ?_⟩, rfl, ?_, by simp⟩
-    · intro j b'
-      have h1 := hi.sym j b'
-      have h2 := hi.sym a b
-      simp only [Map.lookup_insert]
-      have : s.mem.lookup b = none := by
-        cases hm : s.mem.lookup b with
-        | none => rfl
-        | some l => have := hi.memDom b l hm; simp [hb] at this
-      by_cases hj : j = a
-      · subst hj; simp only [if_true, Option.getD_some, mem_setErase]
-        by_cases hbb : b' = b
-        · subst hbb; simp [this]
-        · simp [hbb, h1]
-      · simp [hj, h1]
-    · intro j l; simp only [Map.lookup_insert]; split
-      · next h => subst h; intro _; exact ha
-      · exact hi.grpDom j l
-    · intro j; simp only [Map.lookup_insert]; split <;> simp
-  | some eb =>
-    cases hm : s.mem.lookup b with
-    | none =>
-      simp only
-      refine ⟨⟨?_, hi.memDom, ?_⟩, rfl, ?_, by simp⟩
-      · intro j b'
-        have h1 := hi.sym j b'
-        simp only [Map.lookup_insert]
-        by_cases hj : j = a
-        · subst hj; simp only [if_true, Option.getD_some, mem_setErase]
-          by_cases hbb : b' = b
-          · subst hbb; simp [hm]
-          · simp [hbb, h1]
-        · simp [hj, h1]
-      · intro j l; simp only [Map.lookup_insert]; split
-        · next h => subst h; intro _; exact ha
-        · exact hi.grpDom j l
-      · intro j; simp only [Map.lookup_insert]; split <;> simp
-    | some ms =>
-      simp only
-      refine ⟨⟨?_, ?_, ?_⟩, rfl, ?_, by simp⟩
-      · intro j b'
-        have h1 := hi.sym j b'
-        simp only [Map.lookup_insert]
-        by_cases hj : j = a <;> by_cases hbb : b' = b
-        · subst hj; subst hbb; simp
-        · subst hj; simp [hbb, h1]
-        · subst hbb; simp [hj, h1, hm]
-        · simp [hj, hbb, h1]
-      · intro b' l; simp only [Map.lookup_insert]; split
-        · next h => subst h; intro _; simp [hb]
-        · exact hi.memDom b' l
-      · intro j l; simp only [Map.lookup_insert]; split
-        · next h => subst h; intro _; exact ha
-        · exact hi.grpDom j l
-      · intro j; simp only [Map.lookup_insert]; split <;> simp
-
-theorem linkAB_pres {s s' : State} {a b : Id} (hi : LinkInv s) (ha : (s.a.lookup a).isSome = true)
-    (h : linkAB s a b = .ok s') :
-    LinkInv s' ∧ LinkFrame s s' ∧
-    (∀ j, (s.grp.lookup j).isSome = true → (s'.grp.lookup j).isSome = true) ∧ (s'.grp.lookup a).isSome = true := by
-  unfold linkAB at h
-  simp only at h
-  cases hb : s.b.lookup b with
-  | none => simp [hb] at h
-  | some eb =>
-    simp only [hb] at h
-    cases h
-    refine ⟨⟨?_, ?_, ?_⟩, rfl, ?_, by simp⟩
-    · intro j b'
-      have h1 := hi.sym j b'
-      simp only [Map.lookup_insert]
-      by_cases hj : j = a <;> by_cases hbb : b' = b
-      · subst hj; subst hbb; simp
-      · subst hj; simp [hbb, h1]
-      · subst hbb; simp [hj, h1]
-      · simp [hj, hbb, h1]
-    · intro b' l; simp only [Map.lookup_insert]; split
-      · next h => subst h; intro _; simp [hb]
-      · exact hi.memDom b' l
-    · intro j l; simp only [Map.lookup_insert]; split
-      · next h => subst h; intro _; exact ha
-      · exact hi.grpDom j l
-    · intro j; simp only [Map.lookup_insert]; split <;> simp
-
-
-/-- a state transformer that keeps the link invariant, the frame, and existing `groups` buckets -/
-def LinkStep (a : Id) (s s' : State) : Prop :=
-  LinkInv s' ∧ LinkFrame s s' ∧
-  (∀ j, (s.grp.lookup j).isSome = true → (s'.grp.lookup j).isSome = true) ∧ (s'.grp.lookup a).isSome = true
-
-theorem frame_a {s s' : State} (h : LinkFrame s s') : s'.a = s.a := by unfold LinkFrame at h; rw [h]
-theorem frame_b {s s' : State} (h : LinkFrame s s') : s'.b = s.b := by unfold LinkFrame at h; rw [h]
-
-theorem unlink_fold_pres (a : Id) (ks : List Id) {s : State} (hi : LinkInv s) (ha : (s.a.lookup a).isSome = true)
-    (hg : (s.grp.lookup a).isSome = true) :
-    LinkStep a s (ks.foldl (fun s k => unlinkAB s a k) s) := by
-  induction ks generalizing s with
-  | nil => exact ⟨hi, LinkFrame.refl s, fun _ h => h, hg⟩
-  | cons k rest ih =>
-    simp only [List.foldl_cons]
-    obtain ⟨h1, h2, h3, h4⟩ := unlinkAB_pres (b := k) hi ha
-    have ha' : ((unlinkAB s a k).a.lookup a).isSome = true := by rw [frame_a h2]; exact ha
-    obtain ⟨g1, g2, g3, g4⟩ := ih h1 ha' h4
-    exact ⟨g1, h2.trans g2, fun j hj => g3 j (h3 j hj), g4⟩
-
-theorem linkAll_pres (a : Id) (ks : List Id) {s s' : State} (hi : LinkInv s) (ha : (s.a.lookup a).isSome = true)
-    (hg : (s.grp.lookup a).isSome = true) (h : linkAll a ks s = .ok s') : LinkStep a s s' := by
-  induction ks generalizing s with
-  | nil => simp only [linkAll] at h; cases h; exact ⟨hi, LinkFrame.refl _, fun _ h => h, hg⟩
-  | cons k rest ih =>
-    simp only [linkAll] at h
-    cases hk : linkAB s a k with
-    | error e => simp [hk] at h
-    | ok s1 =>
-      simp only [hk] at h
-      obtain ⟨h1, h2, h3, h4⟩ := linkAB_pres hi ha hk
-      have ha' : (s1.a.lookup a).isSome = true := by rw [frame_a h2]; exact ha
-      obtain ⟨g1, g2, g3, g4⟩ := ih h1 ha' h4 h
-      exact ⟨g1, h2.trans g2, fun j hj => g3 j (h3 j hj), g4⟩
-
-theorem setLinks_pres {s s' : State} {a : Id} {req : List Id} (hi : LinkInv s) (ha : (s.a.lookup a).isSome = true)
-    (h : setLinks s a req = .ok s') : LinkStep a s s' := by
-  unfold setLinks at h
-  simp only at h
-  -- the bucket is created first
-  have hi0 : LinkInv { s with grp := s.grp.insert a ((s.grp.lookup a).getD []) } := by
-    refine ⟨?_, hi.memDom, ?_⟩
-    · intro j b
-      have := hi.sym j b
-      simp only [Map.lookup_insert]
-      by_cases hj : j = a
-      · subst hj; simpa using this
-      · simpa [hj] using this
-    · intro j l; simp only [Map.lookup_insert]; split
-      · next hj => subst hj; intro _; exact ha
-      · exact hi.grpDom j l
-  have hg0 : (({ s with grp := s.grp.insert a ((s.grp.lookup a).getD []) } : State).grp.lookup a).isSome = true := by simp
-  have hmono : ∀ j, (s.grp.lookup j).isSome = true →
-      (({ s with grp := s.grp.insert a ((s.grp.lookup a).getD []) } : State).grp.lookup j).isSome = true := by
-    intro j hj; simp only [Map.lookup_insert]; split <;> simp [hj]
-  obtain ⟨u1, u2, u3, u4⟩ := unlink_fold_pres a _ hi0 (by exact ha) hg0
-  have ha' : ((List.foldl (fun s k => unlinkAB s a k) { s with grp := s.grp.insert a ((s.grp.lookup a).getD []) }
-      (List.filter (fun k => !(setOf req).contains k) ((s.grp.lookup a).getD []))).a.lookup a).isSome = true := by
-    rw [frame_a u2]; exact ha
-  obtain ⟨g1, g2, g3, g4⟩ := linkAll_pres a _ u1 ha' u4 h
-  refine ⟨g1, ?_, fun j hj => g3 j (u3 j (hmono j hj)), g4⟩
-  have f0 : LinkFrame s { s with grp := s.grp.insert a ((s.grp.lookup a).getD []) } := rfl
-  exact f0.trans (u2.trans g2)
-
 
 /-- back-reference buckets = exactly the referrers -/
 def BR (ents : Map Id EntA) (thg : Map Id (List Id)) : Prop :=
@@ -397,32 +222,6 @@ theorem fkBeforeDelete_ok {s s' : State} {ents : Map Id EntA} {id : Id} {e : Ent
       · exact hd b l
 
 
-/-! ### the invariant -/
-
-structure Inv (s : State) : Prop where
-  uName : UI (·.name) s.a s.uName
-  uAlias : UI (fun e => e.alias.getD []) s.a s.uAlias
-  uCode : UI (fun e => e.code.getD []) s.a s.uCode
-  uLabel : UI (fun (e : EntB) => e.label.getD []) s.b s.uLabel
-  sRoles : SI (·.roles) s.a s.sRoles
-  nek : NEK s.sRoles
-  br : BR s.a s.thg
-  thgDom : ThgDom s
-  ownerExists : ∀ j e, s.a.lookup j = some e → e.owner.getD [] ≠ [] → (s.b.lookup (e.owner.getD [])).isSome = true
-  link : LinkInv s
-  grpTotal : ∀ j, (s.a.lookup j).isSome = true → (s.grp.lookup j).isSome = true
-  namesNonEmpty : ∀ j e, s.a.lookup j = some e → e.name ≠ []
-  rolesNonEmpty : ∀ j e, s.a.lookup j = some e → [] ∉ e.roles
-  codeNonEmpty : ∀ j e c, s.a.lookup j = some e → e.code = some c → c ≠ []
-  idA : s.a.lookup [] = none
-  idB : s.b.lookup [] = none
-  hasA : ∀ j e, s.a.lookup j = some e → s.hasA = true
-  hasB : ∀ j e, s.b.lookup j = some e → s.hasB = true
-
-theorem inv_empty : Inv State.empty := by
-  constructor <;> simp [State.empty, UI, SI, NEK, BR, ThgDom]
-  constructor <;> simp
-
 theorem UI_insert_fresh_empty {E : Type} {f : E → Bytes} {ents : Map Id E} {idx : Map Bytes Id} {id : Id} {e : E}
     (h : UI f ents idx) (hf : ents.lookup id = none) (he : f e = []) : UI f (ents.insert id e) idx := by
   intro v i
@@ -438,13 +237,32 @@ theorem UI_insert_same {E : Type} {f : E → Bytes} {ents : Map Id E} {idx : Map
   simp only [Map.lookup_insert]
   grind
 
+
+/-- `fkConstraint.ProcessAfterUpdate`: the state is untouched; a new non-empty target exists -/
+theorem depAfter_ok {isCreate : Bool} {old new : Bytes} {s s' : State} (h : depAfter isCreate old new s = .ok s') :
+    s' = s ∧ (new ≠ [] → (isCreate = false ∧ old = new) ∨ s.bEx new = true) := by
+  unfold depAfter at h
+  split at h
+  · next hc =>
+    cases h
+    refine ⟨rfl, fun _ => Or.inl ?_⟩
+    simp only [Bool.and_eq_true, Bool.not_eq_true', beq_iff_eq] at hc
+    exact hc
+  · split at h
+    · split at h
+      · next hb => cases h; exact ⟨rfl, fun _ => Or.inr hb⟩
+      · cases h
+    · next hn => cases h; exact ⟨rfl, fun h => absurd h hn⟩
+
 theorem afterUpdateA_ok {isCreate : Bool} {cap : Captured} {s s' : State} {id : Id}
     (h : afterUpdateA isCreate cap s id = .ok s') :
     ∃ un ua sr,
       uniqueAfter isCreate false cap.name (evName (s.a.lookup id)) id s.uName = .ok un ∧
       uniqueAfter isCreate true cap.alias (evAlias (s.a.lookup id)) id s.uAlias = .ok ua ∧
       setAfter cap.roles (evRoles (s.a.lookup id)) id s.sRoles = .ok sr ∧
-      fkAfter isCreate cap.owner (evOwner (s.a.lookup id)) id { s with uName := un, uAlias := ua, sRoles := sr } = .ok s' := by
+      fkAfter isCreate cap.owner (evOwner (s.a.lookup id)) id { s with uName := un, uAlias := ua, sRoles := sr } = .ok s' ∧
+      (evDep (s.a.lookup id) ≠ [] →
+        (isCreate = false ∧ cap.dep = evDep (s.a.lookup id)) ∨ s'.bEx (evDep (s.a.lookup id)) = true) := by
   simp only [afterUpdateA, bind, Except.bind] at h
   cases hun : uniqueAfter isCreate false cap.name (evName (s.a.lookup id)) id s.uName with
   | error x => simp [hun] at h
@@ -458,7 +276,12 @@ theorem afterUpdateA_ok {isCreate : Bool} {cap : Captured} {s s' : State} {id : 
       | error x => simp [hsr] at h
       | ok sr =>
         simp only [hsr] at h
-        exact ⟨un, ua, sr, rfl, rfl, rfl, h⟩
+        cases hfk : fkAfter isCreate cap.owner (evOwner (s.a.lookup id)) id { s with uName := un, uAlias := ua, sRoles := sr } with
+        | error x => simp [hfk] at h
+        | ok s1 =>
+          simp only [hfk] at h
+          obtain ⟨rfl, hd⟩ := depAfter_ok h
+          exact ⟨un, ua, sr, rfl, rfl, rfl, hfk, hd⟩
 
 theorem beforeDeleteA_ok {s s' : State} {id : Id} (h : beforeDeleteA s id = .ok s') :
     ∃ sr, setBeforeDelete (evRoles (s.a.lookup id)) id s.sRoles = .ok sr ∧
@@ -472,528 +295,10 @@ theorem beforeDeleteA_ok {s s' : State} {id : Id} (h : beforeDeleteA s id = .ok 
     simp only [hsr] at h
     exact ⟨sr, rfl, h⟩
 
-
-theorem LinkFrame.fields {s s' : State} (h : LinkFrame s s') :
-    s'.hasA = s.hasA ∧ s'.hasB = s.hasB ∧ s'.a = s.a ∧ s'.b = s.b ∧ s'.thg = s.thg ∧ s'.uName = s.uName ∧
-    s'.uAlias = s.uAlias ∧ s'.uCode = s.uCode ∧ s'.uLabel = s.uLabel ∧ s'.sRoles = s.sRoles := by
-  unfold LinkFrame at h; rw [h]; simp
-
 theorem ThgFrame.fields {s s' : State} (h : ThgFrame s s') :
-    s'.hasA = s.hasA ∧ s'.hasB = s.hasB ∧ s'.a = s.a ∧ s'.b = s.b ∧ s'.grp = s.grp ∧ s'.mem = s.mem ∧ s'.uName = s.uName ∧
-    s'.uAlias = s.uAlias ∧ s'.uCode = s.uCode ∧ s'.uLabel = s.uLabel ∧ s'.sRoles = s.sRoles := by
+    s'.hasA = s.hasA ∧ s'.hasB = s.hasB ∧ s'.a = s.a ∧ s'.b = s.b ∧ s'.g = s.g ∧ s'.p = s.p ∧ s'.rc = s.rc ∧
+    s'.uName = s.uName ∧ s'.uAlias = s.uAlias ∧ s'.uCode = s.uCode ∧ s'.uLabel = s.uLabel ∧ s'.sRoles = s.sRoles := by
   unfold ThgFrame at h; rw [h]; simp
-
-theorem LinkInv_of_eq {s s' : State} (h : LinkInv s) (hg : s'.grp = s.grp) (hm : s'.mem = s.mem) (ha : s'.a = s.a)
-    (hb : s'.b = s.b) : LinkInv s' := by
-  refine ⟨?_, ?_, ?_⟩
-  · rw [hg, hm]; exact h.sym
-  · rw [hm, hb]; exact h.memDom
-  · rw [hg, ha]; exact h.grpDom
-
-/-- assembling the invariant after an operation that stored entity `e` under `id` in store A -/
-theorem inv_assemble {s s' : State} {id : Id} {e : EntA} (hi : Inv s)
-    (ha : s'.a = s.a.insert id e) (hb : s'.b = s.b) (hlabel : s'.uLabel = s.uLabel)
-    (hhasB : s'.hasB = s.hasB) (hhasA : s'.hasA = true)
-    (huN : UI (·.name) s'.a s'.uName) (huA : UI (fun e => e.alias.getD []) s'.a s'.uAlias)
-    (huC : UI (fun e => e.code.getD []) s'.a s'.uCode) (hsr : SI (·.roles) s'.a s'.sRoles) (hnek : NEK s'.sRoles)
-    (hbr : BR s'.a s'.thg) (hthg : ThgDom s')
-    (hown : e.owner.getD [] ≠ [] → (s.b.lookup (e.owner.getD [])).isSome = true)
-    (hlink : LinkInv s') (hgrp : ∀ j, (s.grp.lookup j).isSome = true → (s'.grp.lookup j).isSome = true)
-    (hgid : (s'.grp.lookup id).isSome = true)
-    (hne : e.name ≠ []) (hre : [] ∉ e.roles) (hce : ∀ c, e.code = some c → c ≠ []) (hid : id ≠ []) : Inv s' := by
-  refine ⟨huN, huA, huC, by rw [hb, hlabel]; exact hi.uLabel, hsr, hnek, hbr, hthg, ?_, hlink, ?_, ?_, ?_, ?_, ?_,
-    by rw [hb]; exact hi.idB, fun _ _ _ => hhasA, ?_⟩
-  · intro j e'; rw [ha, hb]; simp only [Map.lookup_insert]; split
-    · intro h; cases h; exact hown
-    · exact hi.ownerExists j e'
-  · intro j; rw [ha]; simp only [Map.lookup_insert]; split
-    · next hj => subst hj; intro _; exact hgid
-    · intro h; exact hgrp j (hi.grpTotal j h)
-  · intro j e'; rw [ha]; simp only [Map.lookup_insert]; split
-    · intro h; cases h; exact hne
-    · exact hi.namesNonEmpty j e'
-  · intro j e'; rw [ha]; simp only [Map.lookup_insert]; split
-    · intro h; cases h; exact hre
-    · exact hi.rolesNonEmpty j e'
-  · intro j e' c; rw [ha]; simp only [Map.lookup_insert]; split
-    · intro h; cases h; exact hce c
-    · exact hi.codeNonEmpty j e' c
-  · rw [ha]; simp only [Map.lookup_insert]
-    have : ¬ ([] : Id) = id := fun h => hid h.symm
-    simp [this, hi.idA]
-  · intro j e'; rw [hb, hhasB]; exact hi.hasB j e'
-
-theorem inv_createA {s s' : State} {id : Id} {v : ValsA} (hi : Inv s) (h : createA s id v = .ok s') : Inv s' := by
-  unfold createA at h
-  split at h
-  · cases h
-  · next hid =>
-    split at h
-    · cases h
-    · next hex =>
-      have hfresh : s.a.lookup id = none := by simpa using hex
-      simp only [bind, Except.bind] at h
-      split at h
-      · cases h
-      · next s2 hsl =>
-        -- link step
-        have hl1 : LinkInv ({ s with hasA := true, a := s.a.insert id ⟨v.name, v.alias, setOf v.roles, v.owner, none⟩ } : State) :=
-          ⟨hi.link.sym, hi.link.memDom, by
-            intro j l hj; simp only [Map.lookup_insert]; split
-            · simp
-            · exact hi.link.grpDom j l hj⟩
-        obtain ⟨l1, l2, l3, l4⟩ := setLinks_pres hl1 (by simp) hsl
-        obtain ⟨f1, f2, f3, f4, f5, f6, f7, f8, f9, f10⟩ := l2.fields
-        obtain ⟨un, ua, sr, hun, hua, hsr, hfk⟩ := afterUpdateA_ok h
-        have hlk : s2.a.lookup id = some ⟨v.name, v.alias, setOf v.roles, v.owner, none⟩ := by rw [f3]; simp
-        simp only [hlk, evName, evAlias, evRoles, evOwner, Captured.none] at hun hua hsr hfk
-        rw [f6] at hun; rw [f7] at hua; rw [f10] at hsr
-        simp only at hun hua hsr
-        have hbr2 : BR s.a ({ s2 with uName := un, uAlias := ua, sRoles := sr } : State).thg := by
-          show BR s.a s2.thg; rw [f5]; exact hi.br
-        have hd2 : ThgDom ({ s2 with uName := un, uAlias := ua, sRoles := sr } : State) := by
-          intro b l; show s2.thg.lookup b = some l → (s2.b.lookup b).isSome = true; rw [f5, f4]; exact hi.thgDom b l
-        obtain ⟨k1, k2, k3, k4⟩ := fkAfter_create_ok (e := ⟨v.name, v.alias, setOf v.roles, v.owner, none⟩) hbr2 hd2 hfresh hfk
-        obtain ⟨g1, g2, g3, g4, g5, g6, g7, g8, g9, g10, g11⟩ := k2.fields
-        simp only at g1 g2 g3 g4 g5 g6 g7 g8 g9 g10 g11
-        have hsr' := C03.setAfter_ok (r := (·.roles)) (e := (⟨v.name, v.alias, setOf v.roles, v.owner, none⟩ : EntA))
-          hi.sRoles hi.nek (oldRoles := []) (id := id) (by intro x; simp [hfresh]) hsr
-        refine inv_assemble (e := ⟨v.name, v.alias, setOf v.roles, v.owner, none⟩) hi (by rw [g3, f3]) (by rw [g4, f4])
-          (by rw [g10, f9]) (by rw [g2, f2]) (by rw [g1, f1]) ?_ ?_ ?_ ?_ ?_ ?_ k3 ?_ ?_ ?_ ?_ ?_ ?_ ?_ hid
-        · rw [g3, f3, g7]; exact C03.uniqueAfter_create_ok hi.uName hfresh hun
-        · rw [g3, f3, g8]; exact C03.uniqueAfter_create_ok hi.uAlias hfresh hua
-        · rw [g3, f3, g9, f8]; exact UI_insert_fresh_empty hi.uCode hfresh rfl
-        · rw [g3, f3, g11]; exact hsr'.1
-        · rw [g11]; exact hsr'.2
-        · rw [g3, f3]; exact k1
-        · rw [f4] at k4; exact k4
-        · exact LinkInv_of_eq l1 g5 g6 (by rw [g3]) (by rw [g4])
-        · intro j hj; rw [g5]; exact l3 j hj
-        · rw [g5]; exact l4
-        · exact C03.uniqueAfter_create_nonempty hun rfl
-        · exact C03.setAfter_ok_nonempty hsr (by simp)
-        · intro c hc; cases hc
-
-
-
-theorem inv_updateA {s s' : State} {id : Id} {v : ValsA} {chk : Option ChkA} (hi : Inv s)
-    (h : updateA s id v chk = .ok s') : Inv s' := by
-  unfold updateA at h
-  split at h
-  · cases h
-  · next hid =>
-    split at h
-    · cases h
-    · next old hold =>
-      simp only [bind, Except.bind] at h
-      have hl1 : LinkInv ({ s with a := s.a.insert id (persistFields old v chk) } : State) :=
-        ⟨hi.link.sym, hi.link.memDom, by
-          intro j l hj; simp only [Map.lookup_insert]; split
-          · simp
-          · exact hi.link.grpDom j l hj⟩
-      have hg1 : (s.grp.lookup id).isSome = true := hi.grpTotal id (by simp [hold])
-      -- the link step, performed or not
-      have hlink : ∃ s2, LinkStep id ({ s with a := s.a.insert id (persistFields old v chk) } : State) s2 ∧
-          afterUpdateA false (captureA s id) s2 id = .ok s' := by
-        by_cases hp : proceed chk (fun c => c.groups) = true
-        · simp only [hp, if_true] at h
-          split at h
-          · cases h
-          · next s2 hs2 => exact ⟨s2, setLinks_pres hl1 (by simp) hs2, h⟩
-        · simp only [hp, Bool.false_eq_true, if_false, pure, Except.pure] at h
-          exact ⟨_, ⟨hl1, LinkFrame.refl _, fun _ h => h, hg1⟩, h⟩
-      obtain ⟨s2, hstep, h⟩ := hlink
-      obtain ⟨l1, l2, l3, l4⟩ := hstep
-      obtain ⟨f1, f2, f3, f4, f5, f6, f7, f8, f9, f10⟩ := l2.fields
-      obtain ⟨un, ua, sr, hun, hua, hsr, hfk⟩ := afterUpdateA_ok h
-      have hlk : s2.a.lookup id = some (persistFields old v chk) := by rw [f3]; simp
-      simp only [hlk, captureA, hold, evName, evAlias, evRoles, evOwner] at hun hua hsr hfk
-      rw [f6] at hun; rw [f7] at hua; rw [f10] at hsr
-      simp only at hun hua hsr
-      have hbr2 : BR s.a ({ s2 with uName := un, uAlias := ua, sRoles := sr } : State).thg := by
-        show BR s.a s2.thg; rw [f5]; exact hi.br
-      have hd2 : ThgDom ({ s2 with uName := un, uAlias := ua, sRoles := sr } : State) := by
-        intro b l; show s2.thg.lookup b = some l → (s2.b.lookup b).isSome = true; rw [f5, f4]; exact hi.thgDom b l
-      have hoe : old.owner.getD [] ≠ [] →
-          (({ s2 with uName := un, uAlias := ua, sRoles := sr } : State).b.lookup (old.owner.getD [])).isSome = true := by
-        show _ → (s2.b.lookup _).isSome = true; rw [f4]; exact hi.ownerExists id old hold
-      obtain ⟨k1, k2, k3, k4⟩ := fkAfter_update_ok (e := persistFields old v chk) hbr2 hd2 hold hoe hfk
-      obtain ⟨g1, g2, g3, g4, g5, g6, g7, g8, g9, g10, g11⟩ := k2.fields
-      simp only at g1 g2 g3 g4 g5 g6 g7 g8 g9 g10 g11
-      have hsr' := C03.setAfter_ok (r := (·.roles)) (e := persistFields old v chk)
-        hi.sRoles hi.nek (oldRoles := old.roles) (id := id) (by intro x; simp [hold]) hsr
-      refine inv_assemble (e := persistFields old v chk) hi (by rw [g3, f3]) (by rw [g4, f4])
-        (by rw [g10, f9]) (by rw [g2, f2]) (by rw [g1, f1]; exact hi.hasA id old hold) ?_ ?_ ?_ ?_ ?_ ?_ k3 ?_ ?_ ?_ ?_ ?_ ?_ ?_ hid
-      · rw [g3, f3, g7]; exact C03.uniqueAfter_update_ok (f := (·.name)) hi.uName hold hun
-      · rw [g3, f3, g8]; exact C03.uniqueAfter_update_ok (f := fun e => e.alias.getD []) hi.uAlias hold hua
-      · rw [g3, f3, g9, f8]; exact UI_insert_same hi.uCode hold rfl
-      · rw [g3, f3, g11]; exact hsr'.1
-      · rw [g11]; exact hsr'.2
-      · rw [g3, f3]; exact k1
-      · have := k4; simp only at this; rw [f4] at this; exact this
-      · exact LinkInv_of_eq l1 g5 g6 (by rw [g3]) (by rw [g4])
-      · intro j hj; rw [g5]; exact l3 j hj
-      · rw [g5]; exact l4
-      · exact C03.uniqueAfter_update_nonempty hun (hi.namesNonEmpty id old hold)
-      · exact C03.setAfter_ok_nonempty hsr (hi.rolesNonEmpty id old hold)
-      · intro c hc; exact hi.codeNonEmpty id old c hold hc
-
-/-- `A1.Create`, on an id that does not exist at all or over an existing plain parent (whose
-    indexed values are captured and replaced since fix 8269ce9) -/
-theorem inv_createA1 {s s' : State} {id : Id} {v : ValsA} {code : Bytes} (hi : Inv s)
-    (h : createA1 s id v code = .ok s') : Inv s' := by
-  unfold createA1 at h
-  split at h
-  · cases h
-  · next hid =>
-    split at h
-    · cases h
-    · next hnc =>
-      simp only [bind, Except.bind] at h
-      split at h
-      · cases h
-      · next s2 hsl =>
-        have hl1 : LinkInv ({ s with hasA := true, a := s.a.insert id ⟨v.name, v.alias, setOf v.roles, v.owner, some code⟩ } : State) :=
-          ⟨hi.link.sym, hi.link.memDom, by
-            intro j l hj; simp only [Map.lookup_insert]; split
-            · simp
-            · exact hi.link.grpDom j l hj⟩
-        obtain ⟨l1, l2, l3, l4⟩ := setLinks_pres hl1 (by simp) hsl
-        obtain ⟨f1, f2, f3, f4, f5, f6, f7, f8, f9, f10⟩ := l2.fields
-        split at h
-        · cases h
-        · next s3 hs3 =>
-          split at h
-          · cases h
-          · next uc huc =>
-            simp only [pure, Except.pure] at h
-            cases h
-            obtain ⟨un, ua, sr, hun, hua, hsr, hfk⟩ := afterUpdateA_ok hs3
-            have hlk : s2.a.lookup id = some ⟨v.name, v.alias, setOf v.roles, v.owner, some code⟩ := by rw [f3]; simp
-            have hbr2 : BR s.a ({ s2 with uName := un, uAlias := ua, sRoles := sr } : State).thg := by
-              show BR s.a s2.thg; rw [f5]; exact hi.br
-            have hd2 : ThgDom ({ s2 with uName := un, uAlias := ua, sRoles := sr } : State) := by
-              intro b l; show s2.thg.lookup b = some l → (s2.b.lookup b).isSome = true; rw [f5, f4]; exact hi.thgDom b l
-            cases hold : s.a.lookup id with
-            | none =>
-              simp only [hold, Option.isSome_none, Bool.false_eq_true, if_false, hlk, evName, evAlias, evRoles, evOwner,
-                Captured.none] at hun hua hsr hfk
-              rw [f6] at hun; rw [f7] at hua; rw [f10] at hsr
-              simp only at hun hua hsr
-              obtain ⟨k1, k2, k3, k4⟩ := fkAfter_create_ok (e := ⟨v.name, v.alias, setOf v.roles, v.owner, some code⟩) hbr2 hd2 hold hfk
-              obtain ⟨g1, g2, g3, g4, g5, g6, g7, g8, g9, g10, g11⟩ := k2.fields
-              simp only at g1 g2 g3 g4 g5 g6 g7 g8 g9 g10 g11
-              rw [g9, f8] at huc
-              simp only at huc
-              have hsr' := C03.setAfter_ok (r := (·.roles)) (e := (⟨v.name, v.alias, setOf v.roles, v.owner, some code⟩ : EntA))
-                hi.sRoles hi.nek (oldRoles := []) (id := id) (by intro x; simp [hold]) hsr
-              refine inv_assemble (e := ⟨v.name, v.alias, setOf v.roles, v.owner, some code⟩) hi
-                (show s3.a = _ by rw [g3, f3]) (show s3.b = _ by rw [g4, f4])
-                (show s3.uLabel = _ by rw [g10, f9]) (show s3.hasB = _ by rw [g2, f2]) (show s3.hasA = _ by rw [g1, f1])
-                ?_ ?_ ?_ ?_ ?_ ?_ ?_ ?_ ?_ ?_ ?_ ?_ ?_ ?_ hid
-              · show UI _ s3.a s3.uName; rw [g3, f3, g7]; exact C03.uniqueAfter_create_ok hi.uName hold hun
-              · show UI _ s3.a s3.uAlias; rw [g3, f3, g8]; exact C03.uniqueAfter_create_ok hi.uAlias hold hua
-              · show UI _ s3.a uc; rw [g3, f3]
-                exact C03.uniqueAfter_create_ok (f := fun e => e.code.getD [])
-                  (e := (⟨v.name, v.alias, setOf v.roles, v.owner, some code⟩ : EntA)) hi.uCode hold huc
-              · show SI _ s3.a s3.sRoles; rw [g3, f3, g11]; exact hsr'.1
-              · show NEK s3.sRoles; rw [g11]; exact hsr'.2
-              · show BR s3.a s3.thg; rw [g3, f3]; exact k1
-              · exact k3
-              · have := k4; simp only at this; rw [f4] at this; exact this
-              · exact LinkInv_of_eq l1 (show s3.grp = _ from g5) (show s3.mem = _ from g6) (show s3.a = _ by rw [g3]) (show s3.b = _ by rw [g4])
-              · intro j hj; show (s3.grp.lookup j).isSome = true; rw [g5]; exact l3 j hj
-              · show (s3.grp.lookup id).isSome = true; rw [g5]; exact l4
-              · exact C03.uniqueAfter_create_nonempty hun rfl
-              · exact C03.setAfter_ok_nonempty hsr (by simp)
-              · intro c hc; cases hc; exact C03.uniqueAfter_create_nonempty huc rfl
-            | some old =>
-              have hcode : old.code = none := by
-                cases hc : old.code with
-                | none => rfl
-                | some c => simp [hold, hc] at hnc
-              simp only [hold, Option.isSome_some, if_true, captureA, hlk, evName, evAlias, evRoles, evOwner] at hun hua hsr hfk
-              rw [f6] at hun; rw [f7] at hua; rw [f10] at hsr
-              simp only at hun hua hsr
-              obtain ⟨k1, k2, k3, k4⟩ := fkAfter_true_ok (e := ⟨v.name, v.alias, setOf v.roles, v.owner, some code⟩) hbr2 hd2 hold hfk
-              obtain ⟨g1, g2, g3, g4, g5, g6, g7, g8, g9, g10, g11⟩ := k2.fields
-              simp only at g1 g2 g3 g4 g5 g6 g7 g8 g9 g10 g11
-              rw [g9, f8] at huc
-              simp only at huc
-              have huc' : uniqueAfter true false ((fun (e : EntA) => e.code.getD []) old)
-                  ((fun (e : EntA) => e.code.getD []) ⟨v.name, v.alias, setOf v.roles, v.owner, some code⟩) id s.uCode = .ok uc := by
-                simpa [hcode] using huc
-              have hsr' := C03.setAfter_ok (r := (·.roles)) (e := (⟨v.name, v.alias, setOf v.roles, v.owner, some code⟩ : EntA))
-                hi.sRoles hi.nek (oldRoles := old.roles) (id := id) (by intro x; simp [hold]) hsr
-              refine inv_assemble (e := ⟨v.name, v.alias, setOf v.roles, v.owner, some code⟩) hi
-                (show s3.a = _ by rw [g3, f3]) (show s3.b = _ by rw [g4, f4])
-                (show s3.uLabel = _ by rw [g10, f9]) (show s3.hasB = _ by rw [g2, f2]) (show s3.hasA = _ by rw [g1, f1])
-                ?_ ?_ ?_ ?_ ?_ ?_ ?_ ?_ ?_ ?_ ?_ ?_ ?_ ?_ hid
-              · show UI _ s3.a s3.uName; rw [g3, f3, g7]
-                exact C03.uniqueAfter_true_ok (f := fun (e : EntA) => e.name) hi.uName hold hun
-              · show UI _ s3.a s3.uAlias; rw [g3, f3, g8]
-                exact C03.uniqueAfter_true_ok (f := fun (e : EntA) => e.alias.getD []) hi.uAlias hold hua
-              · show UI _ s3.a uc; rw [g3, f3]
-                exact C03.uniqueAfter_true_ok (f := fun (e : EntA) => e.code.getD []) hi.uCode hold huc'
-              · show SI _ s3.a s3.sRoles; rw [g3, f3, g11]; exact hsr'.1
-              · show NEK s3.sRoles; rw [g11]; exact hsr'.2
-              · show BR s3.a s3.thg; rw [g3, f3]; exact k1
-              · exact k3
-              · have := k4; simp only at this; rw [f4] at this; exact this
-              · exact LinkInv_of_eq l1 (show s3.grp = _ from g5) (show s3.mem = _ from g6) (show s3.a = _ by rw [g3]) (show s3.b = _ by rw [g4])
-              · intro j hj; show (s3.grp.lookup j).isSome = true; rw [g5]; exact l3 j hj
-              · show (s3.grp.lookup id).isSome = true; rw [g5]; exact l4
-              · exact C03.uniqueAfter_true_nonempty hun
-              · exact C03.setAfter_ok_nonempty hsr (hi.rolesNonEmpty id old hold)
-              · intro c hc; cases hc; exact C03.uniqueAfter_create_nonempty huc rfl
-
-theorem inv_createB {s s' : State} {id : Id} {label : Option Bytes} (hi : Inv s) (h : createB s id label = .ok s') :
-    Inv s' := by
-  unfold createB at h
-  split at h
-  · cases h
-  · next hid =>
-    split at h
-    · cases h
-    · next hex =>
-      have hfresh : s.b.lookup id = none := by simpa using hex
-      simp only [bind, Except.bind, pure, Except.pure] at h
-      split at h
-      · cases h
-      · next ul hul =>
-        cases h
-        refine ⟨hi.uName, hi.uAlias, hi.uCode,
-          C03.uniqueAfter_create_ok (f := fun (e : EntB) => e.label.getD []) (e := ⟨label⟩) hi.uLabel hfresh hul,
-          hi.sRoles, hi.nek, hi.br, ?_, ?_, ⟨hi.link.sym, ?_, hi.link.grpDom⟩, hi.grpTotal, hi.namesNonEmpty,
-          hi.rolesNonEmpty, hi.codeNonEmpty, hi.idA, ?_, hi.hasA, fun _ _ _ => rfl⟩
-        · intro b l hb; simp only [Map.lookup_insert]; split
-          · simp
-          · exact hi.thgDom b l hb
-        · intro j e hj hne; simp only [Map.lookup_insert]; split
-          · simp
-          · exact hi.ownerExists j e hj hne
-        · intro b l hb; simp only [Map.lookup_insert]; split
-          · simp
-          · exact hi.link.memDom b l hb
-        · simp only [Map.lookup_insert]
-          have : ¬ ([] : Id) = id := fun h => hid h.symm
-          simp [this, hi.idB]
-
-theorem inv_updateB {s s' : State} {id : Id} {label : Option Bytes} {chk : Option Bool} (hi : Inv s)
-    (h : updateB s id label chk = .ok s') : Inv s' := by
-  unfold updateB at h
-  split at h
-  · cases h
-  · next hid =>
-    split at h
-    · cases h
-    · next old hold =>
-      simp only [bind, Except.bind, pure, Except.pure] at h
-      split at h
-      · cases h
-      · next ul hul =>
-        cases h
-        refine ⟨hi.uName, hi.uAlias, hi.uCode,
-          C03.uniqueAfter_update_ok (f := fun (e : EntB) => e.label.getD []) hi.uLabel hold hul,
-          hi.sRoles, hi.nek, hi.br, ?_, ?_, ⟨hi.link.sym, ?_, hi.link.grpDom⟩, hi.grpTotal, hi.namesNonEmpty,
-          hi.rolesNonEmpty, hi.codeNonEmpty, hi.idA, ?_, hi.hasA, ?_⟩
-        · intro b l hb; simp only [Map.lookup_insert]; split
-          · simp
-          · exact hi.thgDom b l hb
-        · intro j e hj hne; simp only [Map.lookup_insert]; split
-          · simp
-          · exact hi.ownerExists j e hj hne
-        · intro b l hb; simp only [Map.lookup_insert]; split
-          · simp
-          · exact hi.link.memDom b l hb
-        · simp only [Map.lookup_insert]
-          have : ¬ ([] : Id) = id := fun h => hid h.symm
-          simp [this, hi.idB]
-        · intro j e; simp only [Map.lookup_insert]; split
-          · intro _; exact hi.hasB id old hold
-          · exact hi.hasB j e
-
-/-! ### deleting an owner -/
-
-/-- one step of `cleanupLinksB` -/
-def clB (id : Id) (s : State) (a : Id) : State :=
-  match s.a.lookup a, s.grp.lookup a with
-  | some _, some gs => { s with grp := s.grp.insert a (setErase id gs) }
-  | _, _ => s
-
-theorem cleanupLinksB_eq (s : State) (id : Id) :
-    cleanupLinksB s id = ((s.mem.lookup id).getD []).foldl (clB id) s := rfl
-
-/-- only `grp` changed -/
-def GrpFrame (s s' : State) : Prop := s' = { s with grp := s'.grp }
-
-theorem clB_fold (id : Id) (ks : List Id) (s : State)
-    (hdom : ∀ j l, s.grp.lookup j = some l → (s.a.lookup j).isSome = true) :
-    let s' := ks.foldl (clB id) s
-    GrpFrame s s' ∧
-    (∀ j b, b ∈ (s'.grp.lookup j).getD [] ↔ (b ∈ (s.grp.lookup j).getD [] ∧ ¬ (b = id ∧ j ∈ ks))) ∧
-    (∀ j, (s'.grp.lookup j).isSome = (s.grp.lookup j).isSome) := by
-  induction ks generalizing s with
-  | nil => simp [GrpFrame]
-  | cons k rest ih =>
-    simp only [List.foldl_cons]
-    have hstep : GrpFrame s (clB id s k) ∧
-        (∀ j b, b ∈ ((clB id s k).grp.lookup j).getD [] ↔ (b ∈ (s.grp.lookup j).getD [] ∧ ¬ (b = id ∧ j = k))) ∧
-        (∀ j, ((clB id s k).grp.lookup j).isSome = (s.grp.lookup j).isSome) := by
-      unfold clB
-      cases hg : s.grp.lookup k with
-      | none =>
-        have : (match s.a.lookup k, (none : Option (List Id)) with
-          | some _, some gs => { s with grp := s.grp.insert k (setErase id gs) }
-          | _, _ => s) = s := by cases s.a.lookup k <;> rfl
-        rw [this]
-        refine ⟨rfl, ?_, fun _ => rfl⟩
-        intro j b
-        by_cases hj : j = k
-        · subst hj; simp [hg]
-        · simp [hj]
-      | some gs =>
-        have hex := hdom k gs hg
-        cases ha : s.a.lookup k with
-        | none => simp [ha] at hex
-        | some e =>
-          simp only
-          refine ⟨rfl, ?_, ?_⟩
-          · intro j b
-            simp only [Map.lookup_insert]
-            by_cases hj : j = k
-            · subst hj; simp [hg, and_comm]
-            · simp [hj]
-          · intro j; simp only [Map.lookup_insert]; split
-            · next hj => subst hj; simp [hg]
-            · rfl
-    obtain ⟨s1, s2, s3⟩ := hstep
-    have hdom' : ∀ j l, (clB id s k).grp.lookup j = some l → ((clB id s k).a.lookup j).isSome = true := by
-      intro j l hl
-      have ha : (clB id s k).a = s.a := by unfold GrpFrame at s1; rw [s1]
-      rw [ha]
-      have := s3 j
-      rw [hl] at this
-      cases hh : s.grp.lookup j with
-      | none => simp [hh] at this
-      | some l' => exact hdom j l' hh
-    obtain ⟨t1, t2, t3⟩ := ih (clB id s k) hdom'
-    refine ⟨?_, ?_, ?_⟩
-    · unfold GrpFrame at *; rw [t1, s1]
-    · intro j b; rw [t2, s2]; simp only [List.mem_cons]; grind
-    · intro j; rw [t3, s3]
-
-
-
-theorem deleteB_ok {s s' : State} {id : Id} (h : deleteB s id = .ok s') :
-    id ≠ [] ∧ ∃ e, s.b.lookup id = some e ∧ (s.thg.lookup id).getD [] = [] ∧
-      s' = { cleanupLinksB { s with uLabel := uniqueBeforeDelete (e.label.getD []) s.uLabel } id with
-             b := (cleanupLinksB { s with uLabel := uniqueBeforeDelete (e.label.getD []) s.uLabel } id).b.erase id,
-             mem := (cleanupLinksB { s with uLabel := uniqueBeforeDelete (e.label.getD []) s.uLabel } id).mem.erase id,
-             thg := (cleanupLinksB { s with uLabel := uniqueBeforeDelete (e.label.getD []) s.uLabel } id).thg.erase id } := by
-  unfold deleteB at h
-  split at h
-  · cases h
-  · next hid =>
-    split at h
-    · cases h
-    · next e he =>
-      simp only at h
-      split at h
-      · cases h
-      · next hne =>
-        cases h
-        exact ⟨hid, e, he, by simpa using hne, rfl⟩
-
-theorem inv_deleteB {s s' : State} {id : Id} (hi : Inv s) (h : deleteB s id = .ok s') : Inv s' := by
-  obtain ⟨hid, e, hold, hempty, rfl⟩ := deleteB_ok h
-  have hdom : ∀ j l, ({ s with uLabel := uniqueBeforeDelete (e.label.getD []) s.uLabel } : State).grp.lookup j = some l →
-      (({ s with uLabel := uniqueBeforeDelete (e.label.getD []) s.uLabel } : State).a.lookup j).isSome = true :=
-    hi.link.grpDom
-  obtain ⟨c1, c2, c3⟩ := clB_fold id ((s.mem.lookup id).getD []) _ hdom
-  rw [← cleanupLinksB_eq] at c1 c2 c3
-  generalize hs1 : cleanupLinksB { s with uLabel := uniqueBeforeDelete (e.label.getD []) s.uLabel } id = s1 at c1 c2 c3 ⊢
-  simp only at c2 c3
-  unfold GrpFrame at c1
-  have ea : s1.a = s.a := by rw [c1]
-  have eb : s1.b = s.b := by rw [c1]
-  have em : s1.mem = s.mem := by rw [c1]
-  have et : s1.thg = s.thg := by rw [c1]
-  have e1 : s1.uName = s.uName := by rw [c1]
-  have e2 : s1.uAlias = s.uAlias := by rw [c1]
-  have e3 : s1.uCode = s.uCode := by rw [c1]
-  have e4 : s1.uLabel = uniqueBeforeDelete (e.label.getD []) s.uLabel := by rw [c1]
-  have e5 : s1.sRoles = s.sRoles := by rw [c1]
-  have e6 : s1.hasA = s.hasA := by rw [c1]
-  have e7 : s1.hasB = s.hasB := by rw [c1]
-  have hnoref : ∀ j e', s.a.lookup j = some e' → e'.owner.getD [] ≠ id := by
-    intro j e' hj heq
-    have := (hi.br id j).2 ⟨hid, e', hj, heq⟩
-    rw [hempty] at this; simp at this
-  refine ⟨?_, ?_, ?_, ?_, ?_, ?_, ?_, ?_, ?_, ⟨?_, ?_, ?_⟩, ?_, ?_, ?_, ?_, ?_, ?_, ?_, ?_⟩
-  · show UI _ s1.a s1.uName; rw [ea, e1]; exact hi.uName
-  · show UI _ s1.a s1.uAlias; rw [ea, e2]; exact hi.uAlias
-  · show UI _ s1.a s1.uCode; rw [ea, e3]; exact hi.uCode
-  · show UI _ (s1.b.erase id) s1.uLabel; rw [eb, e4]
-    exact C03.uniqueBeforeDelete_ok (f := fun (e : EntB) => e.label.getD []) hi.uLabel hold
-  · show SI _ s1.a s1.sRoles; rw [ea, e5]; exact hi.sRoles
-  · show NEK s1.sRoles; rw [e5]; exact hi.nek
-  · show BR s1.a (s1.thg.erase id); rw [ea, et]
-    intro b j
-    have := hi.br b j
-    simp only [Map.lookup_erase]
-    by_cases hb : b = id
-    · subst hb; simp only [if_true, Option.getD_none, List.not_mem_nil, false_iff]
-      rintro ⟨_, e', hj, heq⟩; exact hnoref j e' hj heq
-    · simp only [hb, if_false]; exact this
-  · intro b l
-    show (s1.thg.erase id).lookup b = some l → ((s1.b.erase id).lookup b).isSome = true
-    rw [et, eb]; simp only [Map.lookup_erase]; split
-    · simp
-    · exact hi.thgDom b l
-  · intro j e'
-    show s1.a.lookup j = some e' → e'.owner.getD [] ≠ [] → ((s1.b.erase id).lookup (e'.owner.getD [])).isSome = true
-    rw [ea, eb]; intro hj hne; simp only [Map.lookup_erase]
-    have := hnoref j e' hj
-    simp only [this, if_false]
-    exact hi.ownerExists j e' hj hne
-  · intro j b
-    show b ∈ (s1.grp.lookup j).getD [] ↔ j ∈ ((s1.mem.erase id).lookup b).getD []
-    rw [c2, em]; simp only [Map.lookup_erase]
-    have hs := hi.link.sym j b
-    by_cases hb : b = id
-    · subst hb; simp only [if_true, Option.getD_none, List.not_mem_nil, iff_false]
-      intro ⟨h1, h2⟩; exact h2 (by simpa using hs.1 h1)
-    · simp only [hb, if_false, false_and, not_false_eq_true, and_true]; exact hs
-  · intro b l
-    show (s1.mem.erase id).lookup b = some l → ((s1.b.erase id).lookup b).isSome = true
-    rw [em, eb]; simp only [Map.lookup_erase]; split
-    · simp
-    · exact hi.link.memDom b l
-  · intro j l
-    show s1.grp.lookup j = some l → (s1.a.lookup j).isSome = true
-    rw [ea]; intro hl
-    have := c3 j; rw [hl] at this
-    cases hh : s.grp.lookup j with
-    | none => simp [hh] at this
-    | some l' => exact hi.link.grpDom j l' hh
-  · intro j
-    show (s1.a.lookup j).isSome = true → (s1.grp.lookup j).isSome = true
-    rw [ea, c3]; exact hi.grpTotal j
-  · intro j e'; show s1.a.lookup j = some e' → _; rw [ea]; exact hi.namesNonEmpty j e'
-  · intro j e'; show s1.a.lookup j = some e' → _; rw [ea]; exact hi.rolesNonEmpty j e'
-  · intro j e' c; show s1.a.lookup j = some e' → _; rw [ea]; exact hi.codeNonEmpty j e' c
-  · show s1.a.lookup [] = none; rw [ea]; exact hi.idA
-  · show (s1.b.erase id).lookup [] = none; rw [eb]; simp only [Map.lookup_erase]; split <;> simp [hi.idB]
-  · intro j e'; show s1.a.lookup j = some e' → s1.hasA = true; rw [ea, e6]; exact hi.hasA j e'
-  · intro j e'; show (s1.b.erase id).lookup j = some e' → s1.hasB = true; rw [eb, e7]
-    simp only [Map.lookup_erase]; split
-    · simp
-    · exact hi.hasB j e'
-
-
-
-/-! ### deleting a thing -/
 
 theorem uniqueBeforeDelete_absent {E : Type} {f : E → Bytes} {ents : Map Id E} {idx : Map Bytes Id} {v : Bytes}
     (h : UI f ents idx) (hv : v = [] ∨ ∀ i e, ents.lookup i = some e → f e ≠ v) :
@@ -1108,82 +413,6 @@ theorem beforeDeleteA_again {s s' : State} {ents : Map Id EntA} {id : Id} {e : E
   · unfold BDFrame; rw [k2]
 
 /-- one step of `cleanupLinksA` -/
-def clA (id : Id) (s : State) (b : Id) : State :=
-  match s.b.lookup b, s.mem.lookup b with
-  | some _, some ms => { s with mem := s.mem.insert b (setErase id ms) }
-  | _, _ => s
-
-theorem cleanupLinksA_eq (s : State) (id : Id) :
-    cleanupLinksA s id = ((s.grp.lookup id).getD []).foldl (clA id) s := rfl
-
-def MemFrame (s s' : State) : Prop := s' = { s with mem := s'.mem }
-
-theorem clA_fold (id : Id) (ks : List Id) (s : State)
-    (hdom : ∀ b l, s.mem.lookup b = some l → (s.b.lookup b).isSome = true) :
-    let s' := ks.foldl (clA id) s
-    MemFrame s s' ∧
-    (∀ b j, j ∈ (s'.mem.lookup b).getD [] ↔ (j ∈ (s.mem.lookup b).getD [] ∧ ¬ (j = id ∧ b ∈ ks))) ∧
-    (∀ b, (s'.mem.lookup b).isSome = (s.mem.lookup b).isSome) := by
-  induction ks generalizing s with
-  | nil => simp [MemFrame]
-  | cons k rest ih =>
-    simp only [List.foldl_cons]
-    have hstep : MemFrame s (clA id s k) ∧
-        (∀ b j, j ∈ ((clA id s k).mem.lookup b).getD [] ↔ (j ∈ (s.mem.lookup b).getD [] ∧ ¬ (j = id ∧ b = k))) ∧
-        (∀ b, ((clA id s k).mem.lookup b).isSome = (s.mem.lookup b).isSome) := by
-      unfold clA
-      cases hg : s.mem.lookup k with
-      | none =>
-        have : (match s.b.lookup k, (none : Option (List Id)) with
-          | some _, some ms => { s with mem := s.mem.insert k (setErase id ms) }
-          | _, _ => s) = s := by cases s.b.lookup k <;> rfl
-        rw [this]
-        refine ⟨rfl, ?_, fun _ => rfl⟩
-        intro b j
-        by_cases hb : b = k
-        · subst hb; simp [hg]
-        · simp [hb]
-      | some ms =>
-        have hex := hdom k ms hg
-        cases hb : s.b.lookup k with
-        | none => simp [hb] at hex
-        | some e =>
-          simp only
-          refine ⟨rfl, ?_, ?_⟩
-          · intro b j
-            simp only [Map.lookup_insert]
-            by_cases hbk : b = k
-            · subst hbk; simp [hg, and_comm]
-            · simp [hbk]
-          · intro b; simp only [Map.lookup_insert]; split
-            · next hbk => subst hbk; simp [hg]
-            · rfl
-    obtain ⟨s1, s2, s3⟩ := hstep
-    have hdom' : ∀ b l, (clA id s k).mem.lookup b = some l → ((clA id s k).b.lookup b).isSome = true := by
-      intro b l hl
-      have hb : (clA id s k).b = s.b := by unfold MemFrame at s1; rw [s1]
-      rw [hb]
-      have := s3 b
-      rw [hl] at this
-      cases hh : s.mem.lookup b with
-      | none => simp [hh] at this
-      | some l' => exact hdom b l' hh
-    obtain ⟨t1, t2, t3⟩ := ih (clA id s k) hdom'
-    refine ⟨?_, ?_, ?_⟩
-    · unfold MemFrame at *; rw [t1, s1]
-    · intro b j; rw [t2, s2]; simp only [List.mem_cons]; grind
-    · intro b; rw [t3, s3]
-
-
-
-theorem BDFrame.fields {s s' : State} (h : BDFrame s s') :
-    s'.hasA = s.hasA ∧ s'.hasB = s.hasB ∧ s'.a = s.a ∧ s'.b = s.b ∧ s'.grp = s.grp ∧ s'.mem = s.mem ∧
-    s'.uCode = s.uCode ∧ s'.uLabel = s.uLabel := by
-  unfold BDFrame at h; rw [h]; simp
-
-theorem Inv.idx {s : State} (hi : Inv s) : IdxInv s.a s :=
-  ⟨hi.uName, hi.uAlias, hi.sRoles, hi.nek, hi.br, hi.thgDom⟩
-
 theorem other_names_differ {E : Type} {f : E → Bytes} {ents : Map Id E} {idx : Map Bytes Id} {id : Id} {e : E}
     (h : UI f ents idx) (hold : ents.lookup id = some e) :
     f e = [] ∨ ∀ i e', (ents.erase id).lookup i = some e' → f e' ≠ f e := by
@@ -1200,166 +429,347 @@ theorem other_names_differ {E : Type} {f : E → Bytes} {ents : Map Id E} {idx :
       rw [h1] at h2; cases h2; exact hne rfl
 
 /-- what `deleteA` computes, stage by stage -/
-theorem deleteA_stages {s s' : State} {id : Id} (hi : Inv s) (h : deleteA s id = .ok s') :
-    id ≠ [] ∧ ∃ e s2, s.a.lookup id = some e ∧ IdxInv (s.a.erase id) s2 ∧
-      s2.hasA = s.hasA ∧ s2.hasB = s.hasB ∧ s2.a = s.a ∧ s2.b = s.b ∧ s2.grp = s.grp ∧ s2.mem = s.mem ∧
-      s2.uLabel = s.uLabel ∧ s2.uCode = uniqueBeforeDelete (e.code.getD []) s.uCode ∧
-      s' = { cleanupLinksA s2 id with a := (cleanupLinksA s2 id).a.erase id, grp := (cleanupLinksA s2 id).grp.erase id } := by
-  unfold deleteA at h
+
+theorem BDFrame.fields {s s' : State} (h : BDFrame s s') :
+    s'.hasA = s.hasA ∧ s'.hasB = s.hasB ∧ s'.a = s.a ∧ s'.b = s.b ∧ s'.g = s.g ∧ s'.p = s.p ∧ s'.rc = s.rc ∧
+    s'.uCode = s.uCode ∧ s'.uLabel = s.uLabel := by
+  unfold BDFrame at h; rw [h]; simp
+
+
+/-! ### the invariant -/
+
+/-- everything except the unique index of store B (which a cascading delete of B suspends) -/
+structure InvCore (s : State) : Prop where
+  uName : UI (·.name) s.a s.uName
+  uAlias : UI (fun e => e.alias.getD []) s.a s.uAlias
+  uCode : UI (fun e => e.code.getD []) s.a s.uCode
+  sRoles : SI (·.roles) s.a s.sRoles
+  nek : NEK s.sRoles
+  br : BR s.a s.thg
+  thgDom : ThgDom s
+  ownerExists : ∀ j e, s.a.lookup j = some e → e.owner.getD [] ≠ [] → s.bEx (e.owner.getD []) = true
+  depExists : ∀ j e, s.a.lookup j = some e → e.dep.getD [] ≠ [] → s.bEx (e.dep.getD []) = true
+  g : LinkInv s.g s.aEx s.bEx
+  p : LinkInv s.p s.cEx s.bEx
+  rc : RcInv s.rc s.aEx s.bEx
+  namesNonEmpty : ∀ j e, s.a.lookup j = some e → e.name ≠ []
+  rolesNonEmpty : ∀ j e, s.a.lookup j = some e → [] ∉ e.roles
+  codeNonEmpty : ∀ j e c, s.a.lookup j = some e → e.code = some c → c ≠ []
+  idA : s.a.lookup [] = none
+  idB : s.b.lookup [] = none
+  hasA : ∀ j e, s.a.lookup j = some e → s.hasA = true
+  hasB : ∀ j e, s.b.lookup j = some e → s.hasB = true
+
+structure Inv (s : State) : Prop extends InvCore s where
+  uLabel : UI (fun (e : EntB) => e.label.getD []) s.b s.uLabel
+
+theorem inv_empty : Inv State.empty := by
+  refine ⟨⟨?_, ?_, ?_, ?_, ?_, ?_, ?_, ?_, ?_, LinkInv.empty _ _, LinkInv.empty _ _, RcInv.empty _ _, ?_, ?_, ?_, ?_, ?_, ?_, ?_⟩, ?_⟩ <;>
+    simp [State.empty, UI, SI, NEK, BR, ThgDom]
+
+theorem aEx_congr {s s' : State} (h : s'.a = s.a) : s'.aEx = s.aEx := by funext j; simp [State.aEx, h]
+theorem bEx_congr {s s' : State} (h : s'.b = s.b) : s'.bEx = s.bEx := by funext j; simp [State.bEx, h]
+theorem cEx_congr {s s' : State} (h : s'.a = s.a) : s'.cEx = s.cEx := by funext j; simp [State.cEx, h]
+
+theorem setGroups_ok {s s' : State} {id : Id} {req : List Id} (h : setGroups s id req = .ok s') :
+    ∃ g', s.g.setLinks s.bEx id req = .ok g' ∧ s' = { s with g := g' } := by
+  simp only [setGroups, bind, Except.bind, pure, Except.pure] at h
+  split at h
+  · cases h
+  · next g' hg => cases h; exact ⟨g', hg, rfl⟩
+
+theorem setPals_ok {s s' : State} {id : Id} {req : List Id} (h : setPals s id req = .ok s') :
+    ∃ p', s.p.setLinks s.bEx id req = .ok p' ∧ s' = { s with p := p' } := by
+  simp only [setPals, bind, Except.bind, pure, Except.pure] at h
+  split at h
+  · cases h
+  · next p' hp => cases h; exact ⟨p', hp, rfl⟩
+
+/-- assembling the core invariant after an operation that stored entity `e` under `id` in store A -/
+theorem core_assemble {s s' : State} {id : Id} {e : EntA} (hi : InvCore s)
+    (ha : s'.a = s.a.insert id e) (hb : s'.b = s.b) (hhasB : s'.hasB = s.hasB) (hhasA : s'.hasA = true)
+    (huN : UI (·.name) s'.a s'.uName) (huA : UI (fun e => e.alias.getD []) s'.a s'.uAlias)
+    (huC : UI (fun e => e.code.getD []) s'.a s'.uCode) (hsr : SI (·.roles) s'.a s'.sRoles) (hnek : NEK s'.sRoles)
+    (hbr : BR s'.a s'.thg) (hthg : ThgDom s')
+    (hown : e.owner.getD [] ≠ [] → s.bEx (e.owner.getD []) = true)
+    (hdep : e.dep.getD [] ≠ [] → s.bEx (e.dep.getD []) = true)
+    (hg : LinkInv s'.g s'.aEx s'.bEx) (hp : LinkInv s'.p s'.cEx s'.bEx) (hrc : RcInv s'.rc s'.aEx s'.bEx)
+    (hne : e.name ≠ []) (hre : [] ∉ e.roles) (hce : ∀ c, e.code = some c → c ≠ []) (hid : id ≠ []) : InvCore s' := by
+  have hbe : s'.bEx = s.bEx := bEx_congr hb
+  refine ⟨huN, huA, huC, hsr, hnek, hbr, hthg, ?_, ?_, hg, hp, hrc, ?_, ?_, ?_, ?_,
+    by rw [hb]; exact hi.idB, fun _ _ _ => hhasA, ?_⟩
+  · intro j e'; rw [ha, hbe]; simp only [Map.lookup_insert]; split
+    · intro h; cases h; exact hown
+    · exact hi.ownerExists j e'
+  · intro j e'; rw [ha, hbe]; simp only [Map.lookup_insert]; split
+    · intro h; cases h; exact hdep
+    · exact hi.depExists j e'
+  · intro j e'; rw [ha]; simp only [Map.lookup_insert]; split
+    · intro h; cases h; exact hne
+    · exact hi.namesNonEmpty j e'
+  · intro j e'; rw [ha]; simp only [Map.lookup_insert]; split
+    · intro h; cases h; exact hre
+    · exact hi.rolesNonEmpty j e'
+  · intro j e' c; rw [ha]; simp only [Map.lookup_insert]; split
+    · intro h; cases h; exact hce c
+    · exact hi.codeNonEmpty j e' c
+  · rw [ha]; simp only [Map.lookup_insert]
+    have : ¬ ([] : Id) = id := fun h => hid h.symm
+    simp [this, hi.idA]
+  · intro j e'; rw [hb, hhasB]; exact hi.hasB j e'
+
+/-- existence predicates after inserting an A entity -/
+theorem aEx_insert_mono {s : State} {id : Id} {e : EntA} {s' : State} (ha : s'.a = s.a.insert id e) :
+    ∀ j, s.aEx j = true → s'.aEx j = true := by
+  intro j hj; simp only [State.aEx, ha, Map.lookup_insert]; split
+  · simp
+  · exact hj
+
+theorem aEx_insert_self {s : State} {id : Id} {e : EntA} {s' : State} (ha : s'.a = s.a.insert id e) :
+    s'.aEx id = true := by simp [State.aEx, ha]
+
+/-- child data only appears or stays: valid when the stored entity keeps or gains `code` -/
+theorem cEx_insert_mono {s : State} {id : Id} {e : EntA} {s' : State} (ha : s'.a = s.a.insert id e)
+    (hc : s.cEx id = true → e.code.isSome = true) : ∀ j, s.cEx j = true → s'.cEx j = true := by
+  intro j hj; simp only [State.cEx, ha, Map.lookup_insert]; split
+  · next h => subst h; simpa using hc hj
+  · exact hj
+
+
+
+theorem inv_createA {s s' : State} {id : Id} {v : ValsA} (hi : Inv s) (h : createA s id v = .ok s') : Inv s' := by
+  unfold createA at h
   split at h
   · cases h
   · next hid =>
-    refine ⟨hid, ?_⟩
     split at h
     · cases h
-    · next e hold =>
-      simp only [bind, Except.bind, pure, Except.pure] at h
-      cases hc : e.code with
-      | none =>
-        simp only [hc, Option.isSome_none, Bool.false_eq_true, if_false] at h
+    · next hex =>
+      have hfresh : s.a.lookup id = none := by simpa using hex
+      simp only [bind, Except.bind] at h
+      split at h
+      · cases h
+      · next s2 hsl =>
+        obtain ⟨g', hg', rfl⟩ := setGroups_ok hsl
+        have hg1 : LinkInv s.g ({ s with hasA := true, a := s.a.insert id ⟨v.name, v.alias, setOf v.roles, v.owner, v.dep, none⟩ } : State).aEx s.bEx :=
+          hi.g.mono (aEx_insert_mono rfl) (fun _ h => h)
+        have hg2 := LinkPair.setLinks_pres hg1 (aEx_insert_self rfl) hg'
+        obtain ⟨un, ua, sr, hun, hua, hsr, hfk, hdep⟩ := afterUpdateA_ok h
+        simp only [Map.lookup_insert, if_true, evName, evAlias, evRoles, evOwner, evDep, Captured.none] at hun hua hsr hfk hdep
+        obtain ⟨k1, k2, k3, k4⟩ := fkAfter_create_ok (e := ⟨v.name, v.alias, setOf v.roles, v.owner, v.dep, none⟩)
+          (ents := s.a) (by exact hi.br) (by exact hi.thgDom) hfresh hfk
+        obtain ⟨g1, g2, g3, g4, g5, g6, g7, g8, g9, g10, g11, g12⟩ := k2.fields
+        simp only at g1 g2 g3 g4 g5 g6 g7 g8 g9 g10 g11 g12
+        have hsr' := C03.setAfter_ok (r := (·.roles)) (e := (⟨v.name, v.alias, setOf v.roles, v.owner, v.dep, none⟩ : EntA))
+          hi.sRoles hi.nek (oldRoles := []) (id := id) (by intro x; simp [hfresh]) hsr
+        have hae : s'.aEx = ({ s with hasA := true, a := s.a.insert id ⟨v.name, v.alias, setOf v.roles, v.owner, v.dep, none⟩ } : State).aEx :=
+          aEx_congr g3
+        have hbe : s'.bEx = s.bEx := bEx_congr g4
+        refine ⟨core_assemble (e := ⟨v.name, v.alias, setOf v.roles, v.owner, v.dep, none⟩) hi.toInvCore g3 g4 g2 g1
+          ?_ ?_ ?_ ?_ ?_ ?_ k3 ?_ ?_ ?_ ?_ ?_ ?_ ?_ ?_ hid, ?_⟩
+        · rw [g3, g8]; exact C03.uniqueAfter_create_ok hi.uName hfresh hun
+        · rw [g3, g9]; exact C03.uniqueAfter_create_ok hi.uAlias hfresh hua
+        · rw [g3, g10]; exact UI_insert_fresh_empty hi.uCode hfresh rfl
+        · rw [g3, g12]; exact hsr'.1
+        · rw [g12]; exact hsr'.2
+        · rw [g3]; exact k1
+        · exact k4
+        · intro hne
+          rcases hdep hne with ⟨hc, _⟩ | hb
+          · cases hc
+          · rw [hbe] at hb; exact hb
+        · rw [g5, hae, hbe]; exact hg2
+        · rw [g6, hbe]
+          exact hi.p.mono (cEx_insert_mono g3 (by simp [State.cEx, hfresh])) (fun _ h => h)
+        · rw [g7, hbe]
+          exact hi.rc.mono (aEx_insert_mono g3) (fun _ h => h)
+        · exact C03.uniqueAfter_create_nonempty hun rfl
+        · exact C03.setAfter_ok_nonempty hsr (by simp)
+        · intro c hc; cases hc
+        · rw [g4, g11]; exact hi.uLabel
+
+
+
+theorem inv_updateA {s s' : State} {id : Id} {v : ValsA} {chk : Option ChkA} (hi : Inv s)
+    (h : updateA s id v chk = .ok s') : Inv s' := by
+  unfold updateA at h
+  split at h
+  · cases h
+  · next hid =>
+    split at h
+    · cases h
+    · next old hold =>
+      simp only [bind, Except.bind] at h
+      have hg1 : LinkInv s.g ({ s with a := s.a.insert id (persistFields old v chk) } : State).aEx s.bEx :=
+        hi.g.mono (aEx_insert_mono rfl) (fun _ h => h)
+      -- the link step, performed or not
+      have hlink : ∃ g', LinkInv g' ({ s with a := s.a.insert id (persistFields old v chk) } : State).aEx s.bEx ∧
+          afterUpdateA false (captureA s id) ({ s with a := s.a.insert id (persistFields old v chk), g := g' } : State) id = .ok s' := by
+        by_cases hp : proceed chk (fun c => c.groups) = true
+        · simp only [hp, if_true] at h
+          split at h
+          · cases h
+          · next s2 hs2 =>
+            obtain ⟨g', hg', rfl⟩ := setGroups_ok hs2
+            exact ⟨g', LinkPair.setLinks_pres hg1 (aEx_insert_self rfl) hg', h⟩
+        · simp only [hp, Bool.false_eq_true, if_false, pure, Except.pure] at h
+          exact ⟨s.g, hg1, h⟩
+      obtain ⟨g', hg2, h⟩ := hlink
+      obtain ⟨un, ua, sr, hun, hua, hsr, hfk, hdep⟩ := afterUpdateA_ok h
+      simp only [Map.lookup_insert, if_true, captureA, hold, evName, evAlias, evRoles, evOwner, evDep] at hun hua hsr hfk hdep
+      obtain ⟨k1, k2, k3, k4⟩ := fkAfter_update_ok (e := persistFields old v chk) (ents := s.a) (by exact hi.br)
+        (by exact hi.thgDom) hold (by exact hi.ownerExists id old hold) hfk
+      obtain ⟨g1, g2, g3, g4, g5, g6, g7, g8, g9, g10, g11, g12⟩ := k2.fields
+      simp only at g1 g2 g3 g4 g5 g6 g7 g8 g9 g10 g11 g12
+      have hsr' := C03.setAfter_ok (r := (·.roles)) (e := persistFields old v chk)
+        hi.sRoles hi.nek (oldRoles := old.roles) (id := id) (by intro x; simp [hold]) hsr
+      have hae : s'.aEx = ({ s with a := s.a.insert id (persistFields old v chk) } : State).aEx := aEx_congr g3
+      have hbe : s'.bEx = s.bEx := bEx_congr g4
+      refine ⟨core_assemble (e := persistFields old v chk) hi.toInvCore g3 g4 g2 (by rw [g1]; exact hi.hasA id old hold)
+        ?_ ?_ ?_ ?_ ?_ ?_ k3 ?_ ?_ ?_ ?_ ?_ ?_ ?_ ?_ hid, ?_⟩
+      · rw [g3, g8]; exact C03.uniqueAfter_update_ok (f := fun (e : EntA) => e.name) hi.uName hold hun
+      · rw [g3, g9]; exact C03.uniqueAfter_update_ok (f := fun (e : EntA) => e.alias.getD []) hi.uAlias hold hua
+      · rw [g3, g10]; exact UI_insert_same hi.uCode hold rfl
+      · rw [g3, g12]; exact hsr'.1
+      · rw [g12]; exact hsr'.2
+      · rw [g3]; exact k1
+      · exact k4
+      · intro hne
+        rcases hdep hne with ⟨_, hc⟩ | hb
+        · have := hi.depExists id old hold (by rw [hc]; exact hne)
+          rw [hc] at this; exact this
+        · rw [hbe] at hb; exact hb
+      · rw [g5, hae, hbe]; exact hg2
+      · rw [g6, hbe]
+        exact hi.p.mono (cEx_insert_mono g3 (by simp [State.cEx, hold, persistFields])) (fun _ h => h)
+      · rw [g7, hbe]
+        exact hi.rc.mono (aEx_insert_mono g3) (fun _ h => h)
+      · exact C03.uniqueAfter_update_nonempty hun (hi.namesNonEmpty id old hold)
+      · exact C03.setAfter_ok_nonempty hsr (hi.rolesNonEmpty id old hold)
+      · intro c hc; exact hi.codeNonEmpty id old c hold hc
+      · rw [g4, g11]; exact hi.uLabel
+
+
+
+/-- `A1.Create`, on an id that does not exist at all or over an existing plain parent (whose
+    indexed values are captured and replaced since fix 8269ce9) -/
+theorem inv_createA1 {s s' : State} {id : Id} {v : ValsA} {code : Bytes} {pals : List Id} (hi : Inv s)
+    (h : createA1 s id v code pals = .ok s') : Inv s' := by
+  unfold createA1 at h
+  split at h
+  · cases h
+  · next hid =>
+    split at h
+    · cases h
+    · next hnc =>
+      simp only [bind, Except.bind] at h
+      split at h
+      · cases h
+      · next s2 hsl =>
+        obtain ⟨g', hg', rfl⟩ := setGroups_ok hsl
         split at h
         · cases h
-        · next s2 hs2 =>
-          cases h
-          obtain ⟨i1, i2⟩ := beforeDeleteA_first hi.idx hold hs2
-          obtain ⟨f1, f2, f3, f4, f5, f6, f7, f8⟩ := i2.fields
-          exact ⟨e, s2, hold, i1, f1, f2, f3, f4, f5, f6, f8,
-            by rw [f7]; simp [uniqueBeforeDelete, hc], rfl⟩
-      | some c =>
-        simp only [hc, Option.isSome_some, if_true] at h
-        split at h
-        · cases h
-        · next s1 hs1 =>
-          split at hs1
-          · cases hs1
-          · next t ht =>
-            cases hs1
+        · next s2' hsp =>
+          obtain ⟨p', hp', rfl⟩ := setPals_ok hsp
+          have hg1 : LinkInv s.g ({ s with hasA := true, a := s.a.insert id ⟨v.name, v.alias, setOf v.roles, v.owner, v.dep, some code⟩ } : State).aEx s.bEx :=
+            hi.g.mono (aEx_insert_mono rfl) (fun _ h => h)
+          have hg2 := LinkPair.setLinks_pres hg1 (aEx_insert_self rfl) hg'
+          have hp1 : LinkInv s.p ({ s with hasA := true, a := s.a.insert id ⟨v.name, v.alias, setOf v.roles, v.owner, v.dep, some code⟩ } : State).cEx s.bEx :=
+            hi.p.mono (cEx_insert_mono rfl (fun _ => rfl)) (fun _ h => h)
+          have hp2 := LinkPair.setLinks_pres hp1 (by simp [State.cEx]) hp'
+          split at h
+          · cases h
+          · next s3 hs3 =>
             split at h
             · cases h
-            · next s2 hs2 =>
+            · next uc huc =>
+              simp only [pure, Except.pure] at h
               cases h
-              obtain ⟨i1, i2⟩ := beforeDeleteA_first hi.idx hold ht
-              obtain ⟨f1, f2, f3, f4, f5, f6, f7, f8⟩ := i2.fields
-              have i1' : IdxInv (s.a.erase id) ({ t with uCode := uniqueBeforeDelete (evCode (some e)) t.uCode } : State) :=
-                ⟨i1.uName, i1.uAlias, i1.sRoles, i1.nek, i1.br, i1.thgDom⟩
-              have hold1 : ({ t with uCode := uniqueBeforeDelete (evCode (some e)) t.uCode } : State).a.lookup id = some e := by
-                show t.a.lookup id = some e; rw [f3]; exact hold
-              obtain ⟨j1, j2⟩ := beforeDeleteA_again i1' (by simp) hold1
-                (other_names_differ (f := fun (e : EntA) => e.name) hi.uName hold)
-                (other_names_differ (f := fun (e : EntA) => e.alias.getD []) hi.uAlias hold) hs2
-              obtain ⟨g1, g2, g3, g4, g5, g6, g7, g8⟩ := j2.fields
-              simp only at g1 g2 g3 g4 g5 g6 g7 g8
-              exact ⟨e, s2, hold, j1, by rw [g1, f1], by rw [g2, f2], by rw [g3, f3], by rw [g4, f4], by rw [g5, f5],
-                by rw [g6, f6], by rw [g8, f8], by rw [g7, f7]; simp [evCode, hc], rfl⟩
+              obtain ⟨un, ua, sr, hun, hua, hsr, hfk, hdep⟩ := afterUpdateA_ok hs3
+              simp only [Map.lookup_insert, if_true, evName, evAlias, evRoles, evOwner, evDep] at hun hua hsr hfk hdep
+              cases hold : s.a.lookup id with
+              | none =>
+                simp only [hold, Option.isSome_none, Bool.false_eq_true, if_false, Captured.none] at hun hua hsr hfk hdep
+                obtain ⟨k1, k2, k3, k4⟩ := fkAfter_create_ok (e := ⟨v.name, v.alias, setOf v.roles, v.owner, v.dep, some code⟩)
+                  (ents := s.a) (by exact hi.br) (by exact hi.thgDom) hold hfk
+                obtain ⟨g1, g2, g3, g4, g5, g6, g7, g8, g9, g10, g11, g12⟩ := k2.fields
+                simp only at g1 g2 g3 g4 g5 g6 g7 g8 g9 g10 g11 g12
+                rw [g10] at huc
+                have hsr' := C03.setAfter_ok (r := (·.roles)) (e := (⟨v.name, v.alias, setOf v.roles, v.owner, v.dep, some code⟩ : EntA))
+                  hi.sRoles hi.nek (oldRoles := []) (id := id) (by intro x; simp [hold]) hsr
+                have hae : s3.aEx = ({ s with hasA := true, a := s.a.insert id ⟨v.name, v.alias, setOf v.roles, v.owner, v.dep, some code⟩ } : State).aEx :=
+                  aEx_congr g3
+                have hce : s3.cEx = ({ s with hasA := true, a := s.a.insert id ⟨v.name, v.alias, setOf v.roles, v.owner, v.dep, some code⟩ } : State).cEx :=
+                  cEx_congr g3
+                have hbe : s3.bEx = s.bEx := bEx_congr g4
+                refine ⟨core_assemble (s' := { s3 with uCode := uc }) (e := ⟨v.name, v.alias, setOf v.roles, v.owner, v.dep, some code⟩)
+                  hi.toInvCore g3 g4 g2 g1 ?_ ?_ ?_ ?_ ?_ ?_ k3 ?_ ?_ ?_ ?_ ?_ ?_ ?_ ?_ hid, ?_⟩
+                · show UI _ s3.a s3.uName; rw [g3, g8]; exact C03.uniqueAfter_create_ok hi.uName hold hun
+                · show UI _ s3.a s3.uAlias; rw [g3, g9]; exact C03.uniqueAfter_create_ok hi.uAlias hold hua
+                · show UI _ s3.a uc; rw [g3]
+                  exact C03.uniqueAfter_create_ok (f := fun (e : EntA) => e.code.getD [])
+                    (e := (⟨v.name, v.alias, setOf v.roles, v.owner, v.dep, some code⟩ : EntA)) hi.uCode hold huc
+                · show SI _ s3.a s3.sRoles; rw [g3, g12]; exact hsr'.1
+                · show NEK s3.sRoles; rw [g12]; exact hsr'.2
+                · show BR s3.a s3.thg; rw [g3]; exact k1
+                · exact k4
+                · intro hne
+                  rcases hdep hne with ⟨hc, _⟩ | hb
+                  · cases hc
+                  · rw [hbe] at hb; exact hb
+                · show LinkInv s3.g s3.aEx s3.bEx; rw [g5, hae, hbe]; exact hg2
+                · show LinkInv s3.p s3.cEx s3.bEx; rw [g6, hce, hbe]; exact hp2
+                · show RcInv s3.rc s3.aEx s3.bEx; rw [g7, hbe]
+                  exact hi.rc.mono (aEx_insert_mono g3) (fun _ h => h)
+                · exact C03.uniqueAfter_create_nonempty hun rfl
+                · exact C03.setAfter_ok_nonempty hsr (by simp)
+                · intro c hc; cases hc; exact C03.uniqueAfter_create_nonempty huc rfl
+                · show UI _ s3.b s3.uLabel; rw [g4, g11]; exact hi.uLabel
+              | some old =>
+                have hcode : old.code = none := by
+                  cases hc : old.code with
+                  | none => rfl
+                  | some c => simp [State.cEx, hold, hc] at hnc
+                simp only [hold, Option.isSome_some, if_true, captureA, evName, evAlias, evRoles, evOwner, evDep] at hun hua hsr hfk hdep
+                obtain ⟨k1, k2, k3, k4⟩ := fkAfter_true_ok (e := ⟨v.name, v.alias, setOf v.roles, v.owner, v.dep, some code⟩)
+                  (ents := s.a) (by exact hi.br) (by exact hi.thgDom) hold hfk
+                obtain ⟨g1, g2, g3, g4, g5, g6, g7, g8, g9, g10, g11, g12⟩ := k2.fields
+                simp only at g1 g2 g3 g4 g5 g6 g7 g8 g9 g10 g11 g12
+                rw [g10] at huc
+                have huc' : uniqueAfter true false ((fun (e : EntA) => e.code.getD []) old)
+                    ((fun (e : EntA) => e.code.getD []) ⟨v.name, v.alias, setOf v.roles, v.owner, v.dep, some code⟩) id s.uCode = .ok uc := by
+                  simpa [hcode] using huc
+                have hsr' := C03.setAfter_ok (r := (·.roles)) (e := (⟨v.name, v.alias, setOf v.roles, v.owner, v.dep, some code⟩ : EntA))
+                  hi.sRoles hi.nek (oldRoles := old.roles) (id := id) (by intro x; simp [hold]) hsr
+                have hae : s3.aEx = ({ s with hasA := true, a := s.a.insert id ⟨v.name, v.alias, setOf v.roles, v.owner, v.dep, some code⟩ } : State).aEx :=
+                  aEx_congr g3
+                have hce : s3.cEx = ({ s with hasA := true, a := s.a.insert id ⟨v.name, v.alias, setOf v.roles, v.owner, v.dep, some code⟩ } : State).cEx :=
+                  cEx_congr g3
+                have hbe : s3.bEx = s.bEx := bEx_congr g4
+                refine ⟨core_assemble (s' := { s3 with uCode := uc }) (e := ⟨v.name, v.alias, setOf v.roles, v.owner, v.dep, some code⟩)
+                  hi.toInvCore g3 g4 g2 g1 ?_ ?_ ?_ ?_ ?_ ?_ k3 ?_ ?_ ?_ ?_ ?_ ?_ ?_ ?_ hid, ?_⟩
+                · show UI _ s3.a s3.uName; rw [g3, g8]
+                  exact C03.uniqueAfter_true_ok (f := fun (e : EntA) => e.name) hi.uName hold hun
+                · show UI _ s3.a s3.uAlias; rw [g3, g9]
+                  exact C03.uniqueAfter_true_ok (f := fun (e : EntA) => e.alias.getD []) hi.uAlias hold hua
+                · show UI _ s3.a uc; rw [g3]
+                  exact C03.uniqueAfter_true_ok (f := fun (e : EntA) => e.code.getD []) hi.uCode hold huc'
+                · show SI _ s3.a s3.sRoles; rw [g3, g12]; exact hsr'.1
+                · show NEK s3.sRoles; rw [g12]; exact hsr'.2
+                · show BR s3.a s3.thg; rw [g3]; exact k1
+                · exact k4
+                · intro hne
+                  rcases hdep hne with ⟨hc, _⟩ | hb
+                  · cases hc
+                  · rw [hbe] at hb; exact hb
+                · show LinkInv s3.g s3.aEx s3.bEx; rw [g5, hae, hbe]; exact hg2
+                · show LinkInv s3.p s3.cEx s3.bEx; rw [g6, hce, hbe]; exact hp2
+                · show RcInv s3.rc s3.aEx s3.bEx; rw [g7, hbe]
+                  exact hi.rc.mono (aEx_insert_mono g3) (fun _ h => h)
+                · exact C03.uniqueAfter_true_nonempty hun
+                · exact C03.setAfter_ok_nonempty hsr (hi.rolesNonEmpty id old hold)
+                · intro c hc; cases hc; exact C03.uniqueAfter_create_nonempty huc rfl
+                · show UI _ s3.b s3.uLabel; rw [g4, g11]; exact hi.uLabel
 
-theorem inv_deleteA {s s' : State} {id : Id} (hi : Inv s) (h : deleteA s id = .ok s') : Inv s' := by
-  obtain ⟨hid, e, s2, hold, ix, q1, q2, q3, q4, q5, q6, q7, q8, rfl⟩ := deleteA_stages hi h
-  have hdom : ∀ b l, s2.mem.lookup b = some l → (s2.b.lookup b).isSome = true := by
-    rw [q6, q4]; exact hi.link.memDom
-  obtain ⟨c1, c2, c3⟩ := clA_fold id ((s2.grp.lookup id).getD []) s2 hdom
-  rw [← cleanupLinksA_eq] at c1 c2 c3
-  generalize hs3 : cleanupLinksA s2 id = s3 at c1 c2 c3 ⊢
-  unfold MemFrame at c1
-  have ea : s3.a = s.a := by rw [c1]; exact q3
-  have eb : s3.b = s.b := by rw [c1]; exact q4
-  have eg : s3.grp = s.grp := by rw [c1]; exact q5
-  have et : s3.thg = s2.thg := by rw [c1]
-  have e1 : s3.uName = s2.uName := by rw [c1]
-  have e2 : s3.uAlias = s2.uAlias := by rw [c1]
-  have e3 : s3.uCode = uniqueBeforeDelete (e.code.getD []) s.uCode := by rw [c1]; exact q8
-  have e4 : s3.uLabel = s.uLabel := by rw [c1]; exact q7
-  have e5 : s3.sRoles = s2.sRoles := by rw [c1]
-  have e6 : s3.hasA = s.hasA := by rw [c1]; exact q1
-  have e7 : s3.hasB = s.hasB := by rw [c1]; exact q2
-  rw [q5, q6] at c2
-  rw [q6] at c3
-  refine ⟨?_, ?_, ?_, ?_, ?_, ?_, ?_, ?_, ?_, ⟨?_, ?_, ?_⟩, ?_, ?_, ?_, ?_, ?_, ?_, ?_, ?_⟩
-  · show UI _ (s3.a.erase id) s3.uName; rw [ea, e1]; exact ix.uName
-  · show UI _ (s3.a.erase id) s3.uAlias; rw [ea, e2]; exact ix.uAlias
-  · show UI _ (s3.a.erase id) s3.uCode; rw [ea, e3]
-    exact C03.uniqueBeforeDelete_ok (f := fun (e : EntA) => e.code.getD []) hi.uCode hold
-  · show UI _ s3.b s3.uLabel; rw [eb, e4]; exact hi.uLabel
-  · show SI _ (s3.a.erase id) s3.sRoles; rw [ea, e5]; exact ix.sRoles
-  · show NEK s3.sRoles; rw [e5]; exact ix.nek
-  · show BR (s3.a.erase id) s3.thg; rw [ea, et]; exact ix.br
-  · intro b l; show s3.thg.lookup b = some l → (s3.b.lookup b).isSome = true
-    rw [et, eb, ← q4]; exact ix.thgDom b l
-  · intro j e'; show (s3.a.erase id).lookup j = some e' → _ → (s3.b.lookup _).isSome = true
-    rw [ea, eb]; simp only [Map.lookup_erase]; split
-    · simp
-    · exact hi.ownerExists j e'
-  · intro j b
-    show b ∈ ((s3.grp.erase id).lookup j).getD [] ↔ j ∈ (s3.mem.lookup b).getD []
-    rw [c2, eg]; simp only [Map.lookup_erase]
-    have hs := hi.link.sym j b
-    by_cases hj : j = id
-    · subst hj; simp only [if_true, Option.getD_none, List.not_mem_nil, false_iff]
-      intro ⟨h1, h2⟩; exact h2 (by simpa using hs.2 h1)
-    · simp only [hj, if_false, false_and, not_false_eq_true, and_true]; exact hs
-  · intro b l; show s3.mem.lookup b = some l → (s3.b.lookup b).isSome = true
-    rw [eb]; intro hl
-    have := c3 b; rw [hl] at this
-    cases hh : s.mem.lookup b with
-    | none => simp [hh] at this
-    | some l' => exact hi.link.memDom b l' hh
-  · intro j l; show (s3.grp.erase id).lookup j = some l → ((s3.a.erase id).lookup j).isSome = true
-    rw [eg, ea]; simp only [Map.lookup_erase]; split
-    · simp
-    · exact hi.link.grpDom j l
-  · intro j; show ((s3.a.erase id).lookup j).isSome = true → ((s3.grp.erase id).lookup j).isSome = true
-    rw [eg, ea]; simp only [Map.lookup_erase]; split
-    · simp
-    · exact hi.grpTotal j
-  · intro j e'; show (s3.a.erase id).lookup j = some e' → _; rw [ea]; simp only [Map.lookup_erase]; split
-    · simp
-    · exact hi.namesNonEmpty j e'
-  · intro j e'; show (s3.a.erase id).lookup j = some e' → _; rw [ea]; simp only [Map.lookup_erase]; split
-    · simp
-    · exact hi.rolesNonEmpty j e'
-  · intro j e' c; show (s3.a.erase id).lookup j = some e' → _; rw [ea]; simp only [Map.lookup_erase]; split
-    · simp
-    · exact hi.codeNonEmpty j e' c
-  · show (s3.a.erase id).lookup [] = none; rw [ea]; simp only [Map.lookup_erase]; split <;> simp [hi.idA]
-  · show s3.b.lookup [] = none; rw [eb]; exact hi.idB
-  · intro j e'; show (s3.a.erase id).lookup j = some e' → s3.hasA = true; rw [ea, e6]
-    simp only [Map.lookup_erase]; split
-    · simp
-    · exact hi.hasA j e'
-  · intro j e'; show s3.b.lookup j = some e' → s3.hasB = true; rw [eb, e7]; exact hi.hasB j e'
-
-
-/-! ### all operations, transactions, histories -/
-
-theorem inv_stepRaw {s s' : State} {op : Op} (hi : Inv s) (h : stepRaw s op = .ok s') : Inv s' := by
-  cases op with
-  | createA id v => exact inv_createA hi h
-  | updateA id v chk => exact inv_updateA hi h
-  | deleteA id => exact inv_deleteA hi h
-  | createA1 id v code => exact inv_createA1 hi h
-  | createB id l => exact inv_createB hi h
-  | updateB id l chk => exact inv_updateB hi h
-  | deleteB id => exact inv_deleteB hi h
-
-theorem inv_applyOps {s s' : State} {ops : List Op} {i : Nat} (hi : Inv s)
-    (h : applyOps s ops i = .ok s') : Inv s' := by
-  induction ops generalizing s i with
-  | nil => simp only [applyOps] at h; cases h; exact hi
-  | cons op rest ih =>
-    simp only [applyOps] at h
-    split at h
-    · next s1 h1 => exact ih (inv_stepRaw hi h1) h
-    · cases h
-
-theorem inv_txStep {s : State} (ops : List Op) (hi : Inv s) : Inv (txStep s ops).1 := by
-  unfold txStep
-  split
-  · next s' h => exact inv_applyOps hi h
-  · exact hi
-
-theorem inv_foldTxs {s : State} (txs : List (List Op)) (hi : Inv s) :
-    Inv (txs.foldl (fun s ops => (txStep s ops).1) s) := by
-  induction txs generalizing s with
-  | nil => exact hi
-  | cons ops rest ih => exact ih (inv_txStep ops hi)
 
 end StorageModel.C06
